@@ -35,6 +35,18 @@ NAMEISH = ("ClassName", "AssocClass", "ResultClass", "QualifierName", "Role",
            "ResultRole", "ObjectName", "InstanceName")
 
 
+# classes only this check needs (embedded-object properties)
+EXTRA_MOF = """
+class VE {
+    [Key] uint32 k;
+    [EmbeddedInstance("VN0")] string ei;
+    [EmbeddedObject] string eo;
+    [EmbeddedInstance("VN0")] string eia[];
+    string t;
+};
+"""
+
+
 def h(x):
     return hashlib.sha1(repr(x).encode("utf-8")).hexdigest()[:12]
 
@@ -142,6 +154,8 @@ class Pair:
         self.B = mockrepo.fresh()
         for c in (self.srvA, self.B):
             mockrepo.register_method_provider(c)
+            for ns in (NS1, NS2):
+                c.compile_mof_string(EXTRA_MOF, namespace=ns)
         self.B.default_namespace = dflt
         self.wire, self.facade = facade.wire_connection(self.srvA, dflt)
         self.events = []
@@ -288,6 +302,12 @@ def random_sequence(rng, pair, nops):
             continue
         if rng.random() < 0.08:
             rich_instance_step(rng, pair, step)
+            continue
+        if rng.random() < 0.05:
+            embedded_instance_step(rng, pair, step)
+            continue
+        if rng.random() < 0.06:
+            class_step(rng, pair)
             continue
         if r < 0.10:
             cn = rng.choice(["VA", "va", "VN3", "VX", "VNoSuch", "VAssoc"])
@@ -509,6 +529,76 @@ def doall_step(rng, pair):
               label="InvokeMethod(DoAll, %s, Params=%r, %r)" % (obj, plist, kw))
 
 
+def embedded_instance_step(rng, pair, step):
+    """Instances with embedded-instance / embedded-object properties: valued,
+    NULL (the property still says it is embedded), arrays"""
+    k = rng.randint(70, 75)
+    ns = rng.choice([None, NS1, NS2])
+    emb = CIMInstance("VN0", properties=[CIMProperty("k", Uint32(5)),
+                                        CIMProperty("s", "in")])
+    props = [CIMProperty("k", Uint32(k)),
+             CIMProperty("ei", rng.choice([None, emb]), type="string",
+                         embedded_object="instance"),
+             CIMProperty("eo", rng.choice([None, emb]), type="string",
+                         embedded_object="object"),
+             CIMProperty("eia", rng.choice([None, [], [emb], [emb, emb]]),
+                         type="string", is_array=True,
+                         embedded_object="instance"),
+             CIMProperty("t", rng.choice([None, "t"] + EDGE_TEXTS),
+                         type="string")]
+    keep = [props[0]] + [p for p in props[1:] if rng.random() < 0.7]
+    inst = CIMInstance("VE", properties=keep)
+    kw = {"namespace": ns} if ns else {}
+    pair.call("CreateInstance", (inst,), kw, ns or "", dict(NewInstance=inst))
+    path = CIMInstanceName("VE", keybindings={"k": Uint32(k)}, namespace=ns)
+    minst = CIMInstance("VE", properties=[p for p in props[1:]
+                                           if rng.random() < 0.5], path=path)
+    pair.call("ModifyInstance", (minst,), {}, ns or "",
+              dict(ModifiedInstance=minst))
+    pair.call("GetInstance", (path,), {}, ns or "", dict(InstanceName=path))
+    kw = dict(DeepInheritance=True)
+    wp = dict(kw, ClassName="VE")
+    if ns:
+        kw["namespace"] = ns
+    pair.call(rng.choice(["EnumerateInstances", "OpenEnumerateInstances"]),
+              ("VE",), kw, ns or "", wp)
+
+
+ALL_CLASSES = ["VA", "VB", "VC", "VX", "VAssoc", "VAssocSub", "VTern", "VM",
+               "VE", "VN0"]
+
+
+def class_step(rng, pair):
+    """Class retrieval for every class of the schema (plain, subclass,
+    association, association subclass, ternary association, methods,
+    embedded properties) with every combination of the flags"""
+    cn = rng.choice(ALL_CLASSES)
+    ns = rng.choice([None, NS1, NS2])
+    flags = dict(LocalOnly=rng.choice([None, True, False]),
+                 IncludeQualifiers=rng.choice([None, True, False]),
+                 IncludeClassOrigin=rng.choice([None, True, True, False]))
+    op = rng.choice(["GetClass", "GetClass", "EnumerateClasses", "References",
+                     "Associators"])
+    if op == "GetClass":
+        kw = dict(flags)
+        wp = dict(kw, ClassName=cn)
+        if ns:
+            kw["namespace"] = ns
+        pair.call("GetClass", (cn,), kw, ns or "", wp)
+    elif op == "EnumerateClasses":
+        kw = dict(flags, ClassName=cn, DeepInheritance=rng.choice(
+            [None, True]))
+        wp = dict(kw)
+        if ns:
+            kw["namespace"] = ns
+        pair.call("EnumerateClasses", (), kw, ns or "", wp)
+    else:
+        src = CIMClassName(rng.choice(["VA", "VX"]), namespace=ns)
+        kw = dict(IncludeClassOrigin=flags["IncludeClassOrigin"],
+                  IncludeQualifiers=flags["IncludeQualifiers"])
+        pair.call(op, (src,), kw, ns or "", dict(kw, ObjectName=src))
+
+
 def _plist(rng, names):
     """PropertyList in every container shape a caller may use"""
     pl = rng.choice([None, [], (), names, tuple(names), names[:1],
@@ -527,7 +617,8 @@ def rich_instance_step(rng, pair, step):
                       [Uint8(1), None, Uint8(3), None],
                       [None, Uint8(2), None], [Uint8(0), Uint8(255)]])
     props = [CIMProperty("k", Uint32(k)),
-             CIMProperty("s", rng.choice(["", "x<&>\"'", MULTI_TEXT, None]),
+             CIMProperty("s", rng.choice(["", "x<&>\"'", MULTI_TEXT, None] +
+                                         EDGE_TEXTS),
                          type="string"),
              CIMProperty("u8a", arr, type="uint8", is_array=True),
              CIMProperty("d", rng.choice([
@@ -573,6 +664,9 @@ def rich_instance_step(rng, pair, step):
 
 
 MULTI_TEXT = "Gr\u00fc\u00dfe \u20ac \u65e5\u672c \U0001F600"
+# characters at the edges of the XML Char production
+EDGE_TEXTS = ["a\ud7ffb", "\ue000", "x\ufffd", "\U00010000y", "\t\n ",
+              "\U0010ffff", "\u0085\u2028"]
 
 
 def reuse_step(rng, pair, pool):
